@@ -331,3 +331,18 @@ class Verdict:
         sys.stdout.flush()
         log("[%s/%s] %.1fs  %s" % (self.prop, self.tier, wall, {k: v for k, v in cov.items() if isinstance(v, (int, bool))}))
         return 1 if self.violations else 0
+
+
+def bisect_rejected(segments, validate_ok):
+    """segments: list; validate_ok(list_of_segments) -> bool. Returns the index of one segment that is rejected on its
+    own (binary search: the trace spec treats segments independently), or None."""
+    lo, hi = 0, len(segments)
+    if validate_ok(segments):
+        return None
+    while hi - lo > 1:
+        mid = (lo + hi) // 2
+        if not validate_ok(segments[lo:mid]):
+            hi = mid
+        else:
+            lo = mid
+    return lo
